@@ -880,3 +880,298 @@ Proof.
   split; [|exact Hc].
   destruct Hnth as [H|[H _]]; [now rewrite H|contradiction].
 Qed.
+
+(** * A condition on the inputs that excludes wrap-around *)
+
+Lemma w_small x : x < W -> w x = x.
+Proof. intros H. unfold w. now apply N.mod_small. Qed.
+
+Lemma fits_small x : x < W -> fits x = true.
+Proof. intros H. unfold fits. now apply N.ltb_lt. Qed.
+
+Lemma In_le_sum_x x (l : list N) : In x l -> x <= sum_x l.
+Proof.
+  intros H. apply In_nth with (d := 0) in H. destruct H as (i & _ & <-). apply nth_le_sum_x.
+Qed.
+
+Lemma sum_x_le_length (l : list N) b : (forall k, nth k l 0 <= b) -> sum_x l <= N.of_nat (length l) * b.
+Proof.
+  induction l as [|x t IH]; intros H.
+  - cbn. lia.
+  - rewrite sum_x_cons. cbn [length]. rewrite Nat2N.inj_succ, N.mul_succ_l.
+    pose proof (H O) as H0. cbn in H0.
+    assert (Ht : forall k, nth k t 0 <= b) by (intros k; apply (H (S k))).
+    specialize (IH Ht). lia.
+Qed.
+
+Fixpoint blocks_sum (mm : bool) (bl : list (option N * N * N)) : N :=
+  match bl with
+  | [] => 0
+  | (b, kvp, kvm) :: t =>
+    (match b with Some sz => sz + (if mm then kvm else kvp) | None => 0 end) + blocks_sum mm t
+  end.
+
+Section NoWrap.
+  Variable gs : list gpu.
+  Variable ovh maxG : N.
+
+  Definition cap (c : N) (s : st) : Prop := forall k, nth k (al s) 0 <= c.
+
+  Lemma cap_le c c' s : c <= c' -> cap c s -> cap c' s.
+  Proof. intros Hle H k. specialize (H k). lia. Qed.
+
+  Lemma place_nowrap lsz i j c : forall s,
+    ok s = true -> cap c s -> ovh + c + maxG + lsz < W ->
+    ok (place gs ovh maxG lsz i j s) = true /\ cap (c + lsz) (place gs ovh maxG lsz i j s).
+  Proof.
+    induction j as [|j' IH]; intros s Hok Hc Hb; cbn [place].
+    - split; [exact Hok|]. eapply cap_le; [|exact Hc]. lia.
+    - set (gi := nth (Nat.modulo i (S j')) (ws s) O).
+      set (a := nth gi (al s) 0).
+      assert (Ha : a <= c) by apply Hc.
+      rewrite (w_small (a + maxG)) by lia.
+      rewrite (w_small (ovh + (a + maxG))) by lia.
+      rewrite (w_small (ovh + (a + maxG) + lsz)) by lia.
+      rewrite Hok, (fits_small (a + maxG)), (fits_small (ovh + (a + maxG))), (fits_small (ovh + (a + maxG) + lsz)) by lia.
+      cbn [andb].
+      destruct (ovh + (a + maxG) + lsz <? g_free (nth gi gs gpu0)).
+      + cbn [ok al]. rewrite (fits_small (a + lsz)) by lia. split; [reflexivity|].
+        intros k. cbn [al]. destruct (Nat.eq_dec k gi) as [->|Hne].
+        * destruct (nth_upd_eq (al s) gi (fun x => w (x + lsz)) 0) as [H|[H _]]; rewrite H; cbv beta; fold a;
+            rewrite ?(w_small (a + lsz)) by lia; lia.
+        * rewrite nth_upd_ne by exact Hne. specialize (Hc k). lia.
+      + apply IH; auto.
+  Qed.
+
+  Lemma place_out_nowrap osz j c : forall s,
+    ok s = true -> cap c s -> ovh + c + maxG + osz < W ->
+    ok (place_out gs ovh maxG osz j s) = true /\ cap (c + osz) (place_out gs ovh maxG osz j s).
+  Proof.
+    induction j as [|j' IH]; intros s Hok Hc Hb; cbn [place_out].
+    - split; [exact Hok|]. eapply cap_le; [|exact Hc]. lia.
+    - set (gi := nth (Nat.modulo (N.to_nat (lc s)) (S j')) (ws s) O).
+      set (a := nth gi (al s) 0).
+      assert (Ha : a <= c) by apply Hc.
+      rewrite (w_small (a + maxG)) by lia.
+      rewrite (w_small (ovh + (a + maxG))) by lia.
+      rewrite (w_small (ovh + (a + maxG) + osz)) by lia.
+      rewrite Hok, (fits_small (a + maxG)), (fits_small (ovh + (a + maxG))), (fits_small (ovh + (a + maxG) + osz)) by lia.
+      cbn [andb].
+      destruct (ovh + (a + maxG) + osz <? g_free (nth gi gs gpu0)).
+      + cbn [ok al]. rewrite (fits_small (a + osz)) by lia. split; [reflexivity|].
+        intros k. cbn [al]. destruct (Nat.eq_dec k gi) as [->|Hne].
+        * destruct (nth_upd_eq (al s) gi (fun x => w (x + osz)) 0) as [H|[H _]]; rewrite H; cbv beta; fold a;
+            rewrite ?(w_small (a + osz)) by lia; lia.
+        * rewrite nth_upd_ne by exact Hne. specialize (Hc k). lia.
+      + apply IH; auto.
+  Qed.
+
+  Lemma blocks_nowrap ng mm T bl : forall i lsz mw s c,
+    ok s = true -> cap c s -> lsz <= T -> mw + blocks_sum mm bl <= T ->
+    ovh + c + N.of_nat (length bl) * T + maxG + T < W ->
+    let r := blocks_loop gs ovh maxG ng mm i bl lsz mw s in
+    ok (snd r) = true /\ cap (c + N.of_nat (length bl) * T) (snd r) /\ fst (fst r) <= T.
+  Proof.
+    induction bl as [|[[b kvp] kvm] bl' IH]; intros i lsz mw s c Hok Hc Hl Hm Hb; cbv zeta.
+    - cbn [blocks_loop snd fst length]. split; [exact Hok|]. split; [|exact Hl]. eapply cap_le; [|exact Hc]. lia.
+    - cbn [blocks_loop]. cbn [length] in *. rewrite Nat2N.inj_succ, N.mul_succ_l in *.
+      set (nT := N.of_nat (length bl') * T) in *.
+      assert (Hgen : forall lsz1 mw1,
+        lsz1 <= T -> mw1 + blocks_sum mm bl' <= T ->
+        let s1 := mkst (ws s) (al s) (ct s) (lc s) (ok s && true) in
+        let s2 := if capped ng (lc s1) then s1 else place gs ovh maxG lsz1 i (length (ws s1)) s1 in
+        let r := blocks_loop gs ovh maxG ng mm (S i) bl' lsz1 mw1 s2 in
+        ok (snd r) = true /\ cap (c + (nT + T)) (snd r) /\ fst (fst r) <= T).
+      { intros lsz1 mw1 Hl1 Hm1 s1 s2.
+        assert (H2 : ok s2 = true /\ cap (c + T) s2).
+        { subst s2. destruct (capped ng (lc s1)).
+          - subst s1. cbn [ok]. rewrite Hok. split; [reflexivity|]. eapply cap_le; [|exact Hc]. lia.
+          - destruct (place_nowrap lsz1 i (length (ws s1)) c s1) as (Ho & Hcp).
+            + subst s1. cbn [ok]. now rewrite Hok.
+            + exact Hc.
+            + lia.
+            + split; [exact Ho|]. eapply cap_le; [|exact Hcp]. lia. }
+        destruct H2 as (Hok2 & Hc2).
+        specialize (IH (S i) lsz1 mw1 s2 (c + T) Hok2 Hc2 Hl1 Hm1). cbv zeta in IH.
+        fold nT in IH. destruct IH as (Ho & Hcp & Hlf); [lia|].
+        split; [exact Ho|]. split; [|exact Hlf]. eapply cap_le; [|exact Hcp]. lia. }
+      cbn [blocks_sum] in Hm.
+      destruct b as [sz|].
+      + set (kvi := if mm then kvm else kvp) in *.
+        rewrite (w_small (sz + kvi)) by lia. rewrite (w_small (mw + sz)) by lia.
+        rewrite (fits_small (sz + kvi)), (fits_small (mw + sz)) by lia. cbn [andb].
+        cbv beta iota zeta. apply Hgen; lia.
+      + cbv beta iota zeta. apply Hgen; lia.
+  Qed.
+
+  Lemma adm_nowrap gzo l0 mmax rest : forall i s,
+    ok s = true -> (forall k, (i <= k)%nat -> nth k (al s) 0 = 0) -> cap (mmax + l0) s ->
+    (forall g, In g rest -> g_min g <= mmax) ->
+    ovh + gzo + maxG + mmax + 2 * l0 < W ->
+    ok (adm_loop ovh maxG gzo l0 i rest s) = true /\ cap (mmax + l0) (adm_loop ovh maxG gzo l0 i rest s).
+  Proof.
+    induction rest as [|g rest' IH]; intros i s Hok Hz Hc Hmin Hb; cbn [adm_loop]; [split; assumption|].
+    assert (Hg : g_min g <= mmax) by (apply Hmin; now left).
+    assert (Hmin' : forall g', In g' rest' -> g_min g' <= mmax) by (intros; apply Hmin; now right).
+    set (z := match ws s with [] => gzo | _ => 0 end).
+    assert (Hzle : z <= gzo) by (subst z; destruct (ws s); lia).
+    rewrite (w_small (ovh + z)) by lia.
+    rewrite (w_small (ovh + z + maxG)) by lia.
+    rewrite (w_small (ovh + z + maxG + g_min g)) by lia.
+    rewrite (w_small (2 * l0)) by lia.
+    rewrite (w_small (ovh + z + maxG + g_min g + 2 * l0)) by lia.
+    rewrite Hok, (fits_small (ovh + z)), (fits_small (ovh + z + maxG)), (fits_small (ovh + z + maxG + g_min g)),
+      (fits_small (2 * l0)), (fits_small (ovh + z + maxG + g_min g + 2 * l0)) by lia.
+    cbn [andb].
+    destruct (g_free g <? ovh + z + maxG + g_min g + 2 * l0).
+    - apply IH; auto. intros k Hk. apply Hz. lia.
+    - assert (Ha0 : nth i (al s) 0 = 0) by (apply Hz; lia).
+      rewrite Ha0. rewrite (w_small (g_min g + l0)) by lia.
+      rewrite (fits_small (g_min g + l0)), (fits_small (0 + (g_min g + l0))) by lia. cbn [andb].
+      apply IH; auto; cbn [al].
+      + intros k Hk. rewrite nth_upd_ne by lia. apply Hz. lia.
+      + intros k. cbn [al]. destruct (Nat.eq_dec k i) as [->|Hne].
+        * destruct (nth_upd_eq (al s) i (fun x => w (x + (g_min g + l0))) 0) as [H|[H _]]; rewrite H; cbv beta; rewrite ?Ha0;
+            rewrite ?(w_small (0 + (g_min g + l0))) by lia; lia.
+        * rewrite nth_upd_ne by exact Hne. apply Hc.
+  Qed.
+
+  Lemma admission_nowrap gzo l0 mmax ok0 :
+    ok0 = true -> (forall g, In g gs -> g_min g <= mmax) ->
+    ovh + gzo + maxG + mmax + 2 * l0 < W ->
+    ok (admission gs ovh maxG gzo l0 ok0) = true /\ cap (mmax + l0 + gzo) (admission gs ovh maxG gzo l0 ok0).
+  Proof.
+    intros Hok0 Hmin Hb. unfold admission.
+    set (s0 := mkst [] (repeat 0 (length gs)) (repeat 0 (length gs)) 0 ok0).
+    assert (Hz0 : forall k, nth k (al s0) 0 = 0).
+    { intros k. unfold s0; cbn [al]. destruct (Nat.lt_ge_cases k (length gs));
+        [apply nth_repeat|apply nth_overflow; now rewrite repeat_length]. }
+    destruct (adm_nowrap gzo l0 mmax gs O s0) as (Hok1 & Hc1); auto.
+    { intros k. rewrite Hz0. lia. }
+    set (s1 := adm_loop ovh maxG gzo l0 0 gs s0) in *.
+    destruct (ws s1) as [|z wt].
+    - split; [exact Hok1|]. eapply cap_le; [|exact Hc1]. lia.
+    - cbn [ok al]. pose proof (Hc1 z) as Hz.
+      rewrite Hok1, (fits_small (nth z (al s1) 0 + gzo)) by lia. split; [reflexivity|].
+      intros k. cbn [al]. destruct (Nat.eq_dec k z) as [->|Hne].
+      + destruct (nth_upd_eq (al s1) z (fun x => w (x + gzo)) 0) as [H|[H _]]; rewrite H; cbv beta;
+          rewrite ?(w_small (nth z (al s1) 0 + gzo)) by lia; lia.
+      + rewrite nth_upd_ne by exact Hne. specialize (Hc1 k). lia.
+  Qed.
+
+  Lemma layout_nowrap ng mm blocks l0 mout s2 c T :
+    ok s2 = true -> cap c s2 -> l0 <= T -> blocks_sum mm blocks <= T ->
+    ovh + c + N.of_nat (length blocks) * T + maxG + T + mout < W ->
+    let p := layout gs ovh maxG ng mm blocks l0 mout s2 in
+    pl_ok p = true /\ cap (c + N.of_nat (length blocks) * T + mout) (pl_st p) /\
+    pl_ovf p <= N.of_nat (length blocks) * T + mout.
+  Proof.
+    intros Hok Hc Hl Hs Hb. cbv zeta. unfold layout.
+    pose proof (blocks_nowrap ng mm T blocks O l0 0 s2 c Hok Hc Hl) as Hbl. cbv zeta in Hbl.
+    destruct (blocks_loop gs ovh maxG ng mm 0 blocks l0 0 s2) as [[lsz mw] s3]. cbn [snd fst] in Hbl.
+    destruct Hbl as (Hok3 & Hc3 & Hlsz); [lia|lia|].
+    set (bc := N.of_nat (length blocks)) in *.
+    assert (Hov : (bc - lc s3) * lsz <= bc * T).
+    { apply N.mul_le_mono; lia. }
+    assert (Hout : forall s', ok s' = true -> cap (c + bc * T + mout) s' ->
+              forall fully ovf oko, oko = true -> ovf <= bc * T + mout ->
+              pl_ok (mkplan s' fully ovf mw (ok s' && oko && true)) = true /\
+              cap (c + bc * T + mout) (pl_st (mkplan s' fully ovf mw (ok s' && oko && true))) /\
+              pl_ovf (mkplan s' fully ovf mw (ok s' && oko && true)) <= bc * T + mout).
+    { intros s' Ho Hcs fully ovf oko -> Hovf. cbn [pl_ok pl_st pl_ovf]. rewrite Ho. auto. }
+    destruct (place_out_nowrap mout (length (ws s3)) (c + bc * T) s3 Hok3 Hc3) as (Hok4 & Hc4); [lia|].
+    assert (Hc3' : cap (c + bc * T + mout) s3) by (eapply cap_le; [|exact Hc3]; lia).
+    destruct (bc <=? lc s3).
+    - destruct ((0 <? mout) && negb (capped ng (lc s3))).
+      + destruct (lc (place_out gs ovh maxG mout (length (ws s3)) s3) <? bc + 1).
+        * rewrite (w_small (0 + mout)) by lia.
+          replace (ok _ && true && fits (0 + mout)) with (ok (place_out gs ovh maxG mout (length (ws s3)) s3) && fits (0 + mout) && true)
+            by (rewrite !andb_true_r; reflexivity).
+          apply Hout; auto; [apply fits_small|]; lia.
+        * apply Hout; auto. lia.
+      + apply Hout; auto. lia.
+    - rewrite (w_small ((bc - lc s3) * lsz)) by lia.
+      destruct ((0 <? mout) && negb (capped ng (lc s3))).
+      + destruct (lc (place_out gs ovh maxG mout (length (ws s3)) s3) <? bc + 1).
+        * rewrite (w_small ((bc - lc s3) * lsz + mout)) by lia.
+          rewrite Hok4, !fits_small by lia. cbn [pl_ok pl_st pl_ovf andb]. repeat split; auto. lia.
+        * rewrite Hok4, !fits_small by lia. cbn [pl_ok pl_st pl_ovf andb]. repeat split; auto. lia.
+      + rewrite Hok3, !fits_small by lia. cbn [pl_ok pl_st pl_ovf andb]. repeat split; auto. lia.
+  Qed.
+End NoWrap.
+
+Lemma add_graph_nowrap g c als cts :
+  (forall k, nth k als 0 <= c) -> c + g < W ->
+  snd (add_graph g als cts) = true /\ (forall k, nth k (fst (add_graph g als cts)) 0 <= c + g).
+Proof.
+  revert cts. induction als as [|a als' IH]; intros cts Hc Hb; cbn [add_graph].
+  - split; [reflexivity|]. intros k. cbn [fst]. destruct k; cbn; lia.
+  - pose proof (Hc O) as Ha. cbn [nth] in Ha.
+    assert (Hc' : forall k, nth k als' 0 <= c) by (intros k; apply (Hc (S k))).
+    destruct cts as [|ct0 cts'].
+    + split; [reflexivity|]. intros k. cbn [fst]. specialize (Hc k). lia.
+    + specialize (IH cts' Hc' Hb). destruct (add_graph g als' cts') as [r o]. cbn [fst snd] in IH. destruct IH as (-> & Hr).
+      destruct (ct0 =? 0); cbn [fst snd].
+      * split; [reflexivity|]. intros [|k]; cbn [nth]; [lia|apply Hr].
+      * rewrite (w_small (a + g)), (fits_small (a + g)) by lia. split; [reflexivity|].
+        intros [|k]; cbn [nth]; [lia|apply Hr].
+Qed.
+
+(** the demand of a case: an explicit expression in the inputs ([prepare] only adds up sizes read from the file) *)
+Definition demand (gs : list gpu) (m : model) (o : opts) : N :=
+  let q := prepare gs m o in
+  let n := N.of_nat (length gs) in
+  let bc := N.of_nat (length (m_blocks m)) in
+  let maxG := N.max (q_gp q) (q_gf q) in
+  let T := q_l0 q + blocks_sum (q_mm q) (m_blocks m) in
+  let B := sum_x (map g_min gs) + q_l0 q + (q_pw q + q_pg q) + bc * T + q_mout q in
+  o_overhead o + (n + 1) * (B + maxG) + (bc + 2) * T + q_mout q.
+
+Lemma estimate_nowrap gs m o :
+  q_ok (prepare gs m o) = true -> demand gs m o < W -> r_ok (estimate gs m o) = true.
+Proof.
+  unfold demand, estimate. cbv zeta.
+  set (q := prepare gs m o).
+  set (n := N.of_nat (length gs)).
+  set (bc := N.of_nat (length (m_blocks m))).
+  set (maxG := N.max (q_gp q) (q_gf q)).
+  set (T := q_l0 q + blocks_sum (q_mm q) (m_blocks m)).
+  set (mmax := sum_x (map g_min gs)).
+  set (gz := q_pw q + q_pg q).
+  set (B := mmax + q_l0 q + gz + bc * T + q_mout q).
+  intros Hq HD.
+  replace ((n + 1) * (B + maxG)) with (n * (B + maxG) + (B + maxG)) in HD by lia.
+  replace ((bc + 2) * T) with (bc * T + 2 * T) in HD by lia.
+  set (nX := n * (B + maxG)) in *. set (bT := bc * T) in *.
+  rewrite (w_small gz) by (unfold B in HD; lia).
+  rewrite Hq, (fits_small gz) by (unfold B in HD; lia). cbn [andb].
+  destruct (admission_nowrap gs (o_overhead o) maxG gz (q_l0 q) mmax true eq_refl) as (Hok2 & Hc2).
+  { intros g Hin. unfold mmax. apply In_le_sum_x. now apply in_map. }
+  { unfold B, T in HD. lia. }
+  set (s2 := admission gs (o_overhead o) maxG gz (q_l0 q) true) in *.
+  destruct (layout_nowrap gs (o_overhead o) maxG (o_numgpu o) (q_mm q) (m_blocks m) (q_l0 q) (q_mout q) s2 (mmax + q_l0 q + gz) T Hok2 Hc2)
+    as (Hokp & Hcp & Hovf).
+  { unfold T. lia. }
+  { unfold T. lia. }
+  { fold bc bT. unfold B in HD. lia. }
+  fold bc bT in Hcp, Hovf.
+  set (p := layout gs (o_overhead o) maxG (o_numgpu o) (q_mm q) (m_blocks m) (q_l0 q) (q_mout q) s2) in *.
+  set (g := if pl_fully p then q_gf q else q_gp q).
+  assert (Hg : g <= maxG) by (unfold g, maxG; destruct (pl_fully p); lia).
+  assert (HcB : forall k, nth k (al (pl_st p)) 0 <= B) by (intros k; specialize (Hcp k); unfold B; lia).
+  destruct (add_graph_nowrap g B (al (pl_st p)) (ct (pl_st p)) HcB) as (Hoka & Hals); [lia|].
+  pose proof (add_graph_length g (al (pl_st p)) (ct (pl_st p))) as Hlen.
+  destruct (add_graph g (al (pl_st p)) (ct (pl_st p))) as [als ok_a]. cbn [fst snd] in *.
+  cbn [r_ok]. subst ok_a.
+  assert (Hwf : length (al (pl_st p)) = length gs).
+  { pose proof (admission_counts gs (o_overhead o) maxG gz (q_l0 q) true) as Ha. cbv zeta in Ha. fold s2 in Ha.
+    destruct Ha as (Hwf2 & Hs2 & Hl2).
+    pose proof (layout_counts gs (o_overhead o) maxG (o_numgpu o) (q_mm q) (m_blocks m) (q_l0 q) (q_mout q) s2 Hwf2 Hs2 Hl2) as Hp.
+    cbv zeta in Hp. fold p in Hp. destruct Hp as ((Hla & _) & _). exact Hla. }
+  assert (Hsum : sum_x als <= nX).
+  { pose proof (sum_x_le_length als (B + g) Hals) as Hs. rewrite Hlen, Hwf in Hs. fold n in Hs.
+    unfold nX. eapply N.le_trans; [exact Hs|]. apply N.mul_le_mono_l. lia. }
+  rewrite Hokp. rewrite (fits_small (sum_x als)) by lia.
+  rewrite (sum_w_x als) by (apply fits_small; lia).
+  rewrite (fits_small (sum_x als + pl_ovf p)) by lia. reflexivity.
+Qed.
